@@ -30,6 +30,8 @@ fn families() -> Vec<(&'static str, Vec<String>)> {
         ("wide", s(&["ｗｉｄｅ", "全角文字", "漢字かな", "ＡＢＣ"])),
         ("trail_ascii_ws", s(&["foo  ", "bar\t", "baz ", "qux \t "])),
         ("trail_unicode_ws", s(&["foo\u{3000}", "bar\u{a0}", "baz\u{2003}", "qux\u{3000}\u{3000}"])),
+        // lines that consist of multi-byte whitespace only
+        ("only_unicode_ws", s(&["\u{3000}", "\u{a0}", "\u{2003}\u{2003}", " \u{a0}"])),
         ("control", s(&["a\u{1b}[1mb", "nul\0x", "bell\u{7}", "cr\rx"])),
         // a carriage return at the END of the line (a kept CR LF ending, or a bare CR): it is content
         ("tail_cr", s(&["foo\r", "bar\r", "baz\r\r", "qux"])),
